@@ -346,6 +346,31 @@ pub fn sizes(args: &[String]) -> i32 {
             }
         }
     }
+    // every bit of a random bitstring is its own draw: any two positions 1, 32, 64 or 128 apart
+    // take all four value pairs over 400 bitstrings (copied or re-used bits show as a pair that
+    // never differs); (3/4)^400 makes a miss by chance impossible in practice
+    for n in [65usize, 70, 130, 200, 300] {
+        let draws = 400;
+        let strings: Vec<Vec<bool>> = (0..draws).map(|_| Bitstring::random(n, &mut rng).bits).collect();
+        let lens_ok = strings.iter().all(|b| b.len() == n);
+        let mut worst = (4usize, 0usize, 0usize);
+        if lens_ok {
+            for d in [1usize, 32, 64, 128] {
+                for i in 0..n.saturating_sub(d) {
+                    let mut seen = [false; 4];
+                    for b in &strings {
+                        seen[usize::from(b[i]) * 2 + usize::from(b[i + d])] = true;
+                    }
+                    let k = seen.iter().filter(|x| **x).count();
+                    if k < worst.0 {
+                        worst = (k, i, i + d);
+                    }
+                }
+            }
+        }
+        out.line(&json!({"ev": "bits_free", "run": format!("bits{n}"), "kind": "bitstring_random", "size": n, "lens_ok": lens_ok,
+                         "fewest_pairs": worst.0, "at": [worst.1, worst.2], "draws": draws}));
+    }
     out.finish();
     0
 }
